@@ -216,9 +216,10 @@ func (e *Engine) harnessCall(st *State, fn *ssa.Function, args []Value) (Value, 
 		return StringVal{Atom: id, Cands: cands, Others: others}, true
 	case "verifPred":
 		// an uninterpreted predicate of a string's identity: verifPred("validMetricName", s)
-		return e.uf("P_"+sanitize(e.tagOf(args[0])), []*Term{e.strID(args[1].(StringVal))}, BoolSort), true
+		// (a decorated atom, "^"+p+"$", selects the predicate P_name__<hex pre>_<hex suf> of the atom: see predApp)
+		return e.predApp("P_"+sanitize(e.tagOf(args[0])), BoolSort, args[1].(StringVal)), true
 	case "verifPred2":
-		return e.uf("P_"+sanitize(e.tagOf(args[0])), []*Term{e.strID(args[1].(StringVal)), e.strID(args[2].(StringVal))}, BoolSort), true
+		return e.predApp("P_"+sanitize(e.tagOf(args[0])), BoolSort, args[1].(StringVal), args[2].(StringVal)), true
 	case "verifFnInt":
 		// an uninterpreted int-valued function of a string's identity
 		return e.uf("F_"+sanitize(e.tagOf(args[0])), []*Term{e.strID(args[1].(StringVal))}, BV(64)), true
